@@ -341,12 +341,12 @@ class _Sub(ast.NodeTransformer):
 
     def visit_Name(self, node):
         if isinstance(node.ctx, ast.Load) and node.id in self.env:
-            return copy.deepcopy(self.env[node.id])
+            return A.clone(self.env[node.id])
         return node
 
 
 def _sub(e, env):
-    return _Sub(env).visit(copy.deepcopy(e))
+    return _Sub(env).visit(A.clone(e))
 
 
 def channel_send_paths(ctx):
@@ -506,7 +506,7 @@ def check_channel(ctx, rep, rule="R05.4"):
             return node
 
     def canon(e):
-        return A.src(ast.fix_missing_locations(Canon().visit(copy.deepcopy(e))))
+        return A.src(ast.fix_missing_locations(Canon().visit(A.clone(e))))
     env = {}
     results = []      # (flag condition or None, returned expr)
 
@@ -521,7 +521,7 @@ def check_channel(ctx, rep, rule="R05.4"):
                     env[t.id] = val
                 elif isinstance(t, ast.Tuple) and all(isinstance(e, ast.Name) for e in t.elts):
                     for i, e in enumerate(t.elts):
-                        env[e.id] = ast.Subscript(value=copy.deepcopy(val), slice=ast.Constant(value=i), ctx=ast.Load())
+                        env[e.id] = ast.Subscript(value=A.clone(val), slice=ast.Constant(value=i), ctx=ast.Load())
                 else:
                     raise AnalysisError("Channel.recv: unsupported assignment")
             elif isinstance(st, ast.If):
@@ -538,7 +538,7 @@ def check_channel(ctx, rep, rule="R05.4"):
                 for k in set(env_t) | set(env):
                     a, b = env_t.get(k), env.get(k)
                     if a is not None and b is not None and A.src(a) != A.src(b):
-                        env[k] = ast.IfExp(test=copy.deepcopy(tst), body=a, orelse=b)
+                        env[k] = ast.IfExp(test=A.clone(tst), body=a, orelse=b)
                     elif a is not None and b is None:
                         env[k] = a
             elif isinstance(st, ast.Return):
